@@ -92,8 +92,11 @@ theorem notify_once (cfg : Cfg) (s : St) (op : Op) (hop : isChange op = true) (h
       | false => simp at hr; subst hr; simp [success]
       | true =>
         simp only [Bool.not_true, Bool.false_eq_true, ↓reduceIte] at hr ⊢
-        obtain ⟨hh, rfl⟩ := tail_wlog cfg _ sec true [r0] _ r hr
-        rw [hh, hw { s with pol := s.pol.set _ l } _ _ h2 h4 rfl, exOnly_eq]; simp [success, expected]
+        by_cases hs : shortFor cfg sec [r0] = true
+        · simp only [hs, ↓reduceIte] at hr; cases hr
+        · simp only [hs, Bool.false_eq_true, ↓reduceIte] at hr ⊢
+          obtain ⟨hh, rfl⟩ := tail_wlog cfg _ sec true [r0] _ r hr
+          rw [hh, hw { s with pol := s.pol.set _ l } _ _ h2 h4 rfl, exOnly_eq]; simp [success, expected]
   | addMany sec rs =>
     simp only [step] at hr ⊢
     cases hadd : Policy.addMany none (s.pol.get sec) rs with
@@ -103,8 +106,11 @@ theorem notify_once (cfg : Cfg) (s : St) (op : Op) (hop : isChange op = true) (h
       | false => simp at hr; subst hr; simp [success]
       | true =>
         simp only [Bool.not_true, Bool.false_eq_true, ↓reduceIte] at hr ⊢
-        obtain ⟨hh, rfl⟩ := tail_wlog cfg _ sec true rs _ r hr
-        rw [hh, hw { s with pol := s.pol.set _ l } _ _ h2 h4 rfl, exOnly_eq]; simp [success, expected]
+        by_cases hs : shortFor cfg sec rs = true
+        · simp only [hs, ↓reduceIte] at hr; cases hr
+        · simp only [hs, Bool.false_eq_true, ↓reduceIte] at hr ⊢
+          obtain ⟨hh, rfl⟩ := tail_wlog cfg _ sec true rs _ r hr
+          rw [hh, hw { s with pol := s.pol.set _ l } _ _ h2 h4 rfl, exOnly_eq]; simp [success, expected]
   | remove sec r0 =>
     simp only [step] at hr ⊢
     cases hadd : Policy.remove (s.pol.get sec) r0 with
@@ -206,12 +212,16 @@ theorem notify_none_unarmed (cfg : Cfg) (s : St) (op : Op) (hop : isChange op = 
     simp only [step]
     cases Policy.add none (s.pol.get sec) r0 with
     | mk l ok => cases ok <;> simp only [Bool.not_false, Bool.not_true, Bool.false_eq_true, ↓reduceIte]
-                 exact tail _ _ _ _ _ (hw { s with pol := s.pol.set _ l } _ _ rfl rfl rfl)
+                 split
+                 · rfl
+                 · exact tail _ _ _ _ _ (hw { s with pol := s.pol.set _ l } _ _ rfl rfl rfl)
   | addMany sec rs =>
     simp only [step]
     cases Policy.addMany none (s.pol.get sec) rs with
     | mk l ok => cases ok <;> simp only [Bool.not_false, Bool.not_true, Bool.false_eq_true, ↓reduceIte]
-                 exact tail _ _ _ _ _ (hw { s with pol := s.pol.set _ l } _ _ rfl rfl rfl)
+                 split
+                 · rfl
+                 · exact tail _ _ _ _ _ (hw { s with pol := s.pol.set _ l } _ _ rfl rfl rfl)
   | remove sec r0 =>
     simp only [step]
     cases Policy.remove (s.pol.get sec) r0 with
